@@ -199,6 +199,22 @@ def jobs(tier):
         out.append(Job('C05', 'c05:h_single', {'dll': 'j1939-21', 'cas': CFGS[1][0], 'listeners': CFGS[1][1], 'via': 'listener', 'flags': list(flags)}, W=40, wall=120, validate=1))
         out.append(Job('C05', 'c05:h_single', {'dll': 'j1939-21', 'cas': CFGS[1][0], 'listeners': CFGS[1][1], 'via': 'listener', 'flags': list(flags), 'pdu2': True}, W=40, wall=120, validate=1))
     out.append(Job('C05', 'c05:h_bystander', {'dll': 'j1939-21', 'size': 20}, W=40, wall=120, validate=1))
+    if tier != 'quick':
+        more = [
+            ([['bypassed', 1], ['bypassed', 253]], [1, (250, 253)]),
+            ([['normal_immediate', 10], ['moved_twice', 128], ['cannot_claim', 140]], ['none', 129, (128, 131)]),
+            ([['wait_veto', 200]], [(0, 253)]),
+            ([['bypassed', 0x20], ['bypassed', 0x20]], ['none', 'none']),
+            ([['moved_lost_waiting', 128]], ['none', 128, 129, 130]),
+        ]
+        for dll in dlls:
+            for cas, ls in more:
+                out.append(Job('C05', 'c05:h_single', {'dll': dll, 'cas': cas, 'listeners': ls, 'pdu2': False}, W=40, wall=300, validate=1))
+                if not any(h in ('wait_veto', 'lost_waiting', 'moved_lost_waiting') for h, a in cas):
+                    for kind in (('cm', 'dt') if dll == 'j1939-21' else ('cm', 'dt', 'mpg')):
+                        out.append(Job('C05', 'c05:h_foreign_tp', {'dll': dll, 'cas': cas, 'listeners': ls, 'kind': kind}, W=40, wall=300, validate=1))
+        for size in (9, 14, 28):
+            out.append(Job('C05', 'c05:h_bystander', {'dll': 'j1939-21', 'size': size}, W=40, wall=300, validate=1))
     return out
 
 
